@@ -56,6 +56,9 @@ func (ex *Exec) execInstr(b *ssa.BasicBlock, st *State, in ssa.Instruction) {
 		} else {
 			v = ex.val(st, in.Val)
 		}
+		if hf, ok := l.(LocHeapField); ok {
+			ex.ownershipCheck(st, in.Val, hf.String(), in.Addr)
+		}
 		if err := ex.store(st, l, v); err != nil {
 			ex.fail("%s: %v", ex.pos(in.Pos()), err)
 		}
@@ -122,6 +125,7 @@ func (ex *Exec) execInstr(b *ssa.BasicBlock, st *State, in ssa.Instruction) {
 		k := ex.val(st, in.Key)
 		v := ex.val(st, in.Value)
 		ex.safeOblige(st, "nil-map-write", Not(Eq(m, IntLit(0))))
+		ex.ownershipCheck(st, in.Value, "map "+in.Map.Name(), nil)
 		ex.mapStore(st, in.Map.Type(), m, k, v)
 	case *ssa.MakeMap:
 		r := ex.freshRef(st, "map")
@@ -756,4 +760,35 @@ func isNumLit(s string) bool {
 // mapTypeSym names the heap of a map type by its Go type (distinct Go map types never alias).
 func mapTypeSym(mt types.Type) string {
 	return sanitize(types.TypeString(mt.Underlying(), func(p *types.Package) string { return p.Name() }))
+}
+
+// ownershipCheck: slices are modelled as values, which is only faithful while no two owners share a backing
+// array. Storing a re-slice of one heap-resident slice into another heap location creates exactly such sharing
+// (later appends through either owner overwrite the other's elements), so it is reported as a failed obligation.
+func (ex *Exec) ownershipCheck(st *State, v ssa.Value, dst string, dstAddr ssa.Value) {
+	if ex.con == nil {
+		return
+	}
+	if _, isSlice := v.Type().Underlying().(*types.Slice); !isSlice {
+		return
+	}
+	sl, ok := v.(*ssa.Slice)
+	if !ok {
+		return
+	}
+	ld, ok := sl.X.(*ssa.UnOp)
+	if !ok || ld.Op != token.MUL {
+		return
+	}
+	src, ok := ld.X.(*ssa.FieldAddr)
+	if !ok || ex.isAddrValue(src.X) {
+		return // re-slice of a local: the local is dead after the store in the code under contract
+	}
+	if d, ok := dstAddr.(*ssa.FieldAddr); ok && d.Field == src.Field && d.X.Type() == src.X.Type() {
+		return // x.f = x.f[:n]: same owner
+	}
+	ex.nown++
+	owner := src.X.Type().Underlying().(*types.Pointer).Elem()
+	name := fieldHeapName(owner, src.Field)
+	ex.vc.oblige("own", fmt.Sprintf("own:%s:%d", ex.conName(), ex.nown), st.guard, TFalse, ex.pos(token.NoPos)).SetNote("a re-slice of " + name + " is stored into " + dst + ": two owners would share one backing array (slices are modelled as values)")
 }
